@@ -162,6 +162,16 @@ func (p *c18) Gen(seed uint64, i int, tier string) (any, bool) {
 	if r.Chance(1, 3) {
 		m.From = fmt.Sprintf("%q <sender@origin.example>", strings.TrimSpace(strings.NewReplacer(`"`, "", `\`, "").Replace(genHeaderValue(r))))
 	}
+	if r.Chance(1, 5) {
+		// threading fields: several message ids in one field (each id is one word; the field as
+		// a whole has to be folded like any other)
+		n := 2 + r.Intn(6)
+		var ids []string
+		for k := 0; k < n; k++ {
+			ids = append(ids, fmt.Sprintf("<%d.%d.thread-%s@lists.origin.example>", 1700000000+r.Intn(99999), r.Intn(1<<20), tok))
+		}
+		m.Headers = append(m.Headers, [2]string{sim.Pick(r, []string{"References", "In-Reply-To"}), strings.Join(ids, sim.Pick(r, []string{" ", "\x1f"}))})
+	}
 	if r.Chance(1, 6) {
 		// a field with many short values (the list separator has to be budgeted for, too)
 		n := 8 + r.Intn(30)
